@@ -201,28 +201,29 @@ theorem store_good {W : Nat} (hW : 0 < W) (fx : Fixes) {c : List Block} {n : Nod
   obtain ⟨hg1, f, hmem, hf⟩ := ensureInit_good' hW hg
   have hck := ensureInit_chainKeys W n
   have hn1 : NextBlock c (ensureInit W n).disk b :=
-    ⟨hn.num, hn.parent, hn.oldRoot, fresh_congr hck hn.fresh⟩
+    ⟨hn.num, hn.parent, hn.oldRoot, hn.newRoot, fresh_congr hck hn.fresh⟩
   obtain ⟨f', ws, hins, hf', hws⟩ := insert_filtOK hW hf hn.num
   have hen := expectedNext_of_coh hg.coh
   have h1 : ¬ (expectedNext n.disk).1 ≠ b.num := by rw [hen, hn.num]; simp
   have h2 : ¬ (expectedNext n.disk).2 ≠ b.parent := by rw [hen, hn.parent]; simp
   have h3 : ¬ stateRoot n.disk ≠ b.oldRoot := by rw [hg.coh.state, hn.oldRoot]; simp
+  have h4 : ¬ b.applied ≠ b.root := by rw [hn.newRoot]; simp
   have haux := insert_onlyAux hins
   have hnd := hn.fresh.2.2
   -- the disk after the commit
   have hdisk : (exec W fx n (.store b) ft).1.disk = applyBatch (ensureInit W n).disk (blockWrites b ++ ws) := by
     cases ft with
-    | none => simp only [exec, plan, storePlan, h1, h2, h3, if_false, hmem, hins, applyCommits,
+    | none => simp only [exec, plan, storePlan, h1, h2, h3, h4, if_false, hmem, hins, applyCommits,
         List.foldl_cons, List.foldl_nil]
     | failAt k => rcases hft with h | ⟨_, h⟩ <;> cases h
     | failInit => rcases hft with h | ⟨_, h⟩ <;> cases h
     | crashInit => rcases hft with h | ⟨_, h⟩ <;> cases h
-    | crashAfter k => simp only [exec, plan, storePlan, h1, h2, h3, if_false, hmem, hins, applyCommits,
+    | crashAfter k => simp only [exec, plan, storePlan, h1, h2, h3, h4, if_false, hmem, hins, applyCommits,
         List.take_succ_cons, List.take_nil, List.foldl_cons, List.foldl_nil]
   have hmemOK : MemOK W (c ++ [b]) (exec W fx n (.store b) ft).1.mem := by
     cases ft with
     | none =>
-      simp only [exec, plan, storePlan, h1, h2, h3, if_false, hmem, hins, memAfter]
+      simp only [exec, plan, storePlan, h1, h2, h3, h4, if_false, hmem, hins, memAfter]
       exact hf'
     | failAt k => rcases hft with h | ⟨_, h⟩ <;> cases h
     | failInit => rcases hft with h | ⟨_, h⟩ <;> cases h
